@@ -48,10 +48,42 @@ def gen(src, tier):
     return sc
 
 
+def chain_joint_mp(post, rows):
+    """Mean and covariance of the selected state rows at all output times, from the (float64) backward factorisation the
+    library returned, multiplied out in 50-digit arithmetic.  (In float64 the products A_i ... A_j P_j lose the joint law
+    of a high coefficient to cancellation: 1e-3 relative in the log-determinant was observed, seed 4 run 90.)"""
+    cond = post.conditional
+    nc = onp.asarray(cond.A).shape[0]
+    mT, PT = embed.normal_mp(post.marginal)
+    D = mT.rows
+    means, covs, As = [None] * (nc + 1), [None] * (nc + 1), [None] * nc
+    means[nc], covs[nc] = mT, PT
+    for i in range(nc - 1, -1, -1):
+        ci = tu.tree_map(lambda a: a[i], cond)
+        A, bb, Q = embed.cond_mp(ci)
+        As[i] = A
+        means[i] = A * means[i + 1] + bb
+        covs[i] = A * covs[i + 1] * A.T + Q
+    N, r = nc + 1, len(rows)
+    mu = [means[i][a] for i in range(N) for a in rows]
+    J = mp.zeros(N * r)
+    for i in range(N):
+        M = mp.eye(D)
+        for j in range(i, N):
+            if j > i:
+                M = M * As[j - 1]
+            C = M * covs[j]
+            for a in range(r):
+                for c in range(r):
+                    J[i * r + a, j * r + c] = C[rows[a], rows[c]]
+                    J[j * r + c, i * r + a] = C[rows[a], rows[c]]
+    return mu, J
+
+
 def mp_logpdf(y, mu, Sigma):
     n = len(y)
-    S = mp.matrix(Sigma.tolist())
-    r = mp.matrix([mp.mpf(float(a)) - mp.mpf(float(b_)) for a, b_ in zip(y, mu)])
+    S = Sigma if isinstance(Sigma, mp.matrix) else mp.matrix(Sigma.tolist())
+    r = mp.matrix([mp.mpf(float(a)) - mp.mpf(b_) for a, b_ in zip(y, mu)])
     L = mp.cholesky(S)
     w = mp.lu_solve(L, r)  # L is lower triangular; lu_solve is fine at 50 digits
     maha = sum(x * x for x in w)
@@ -101,7 +133,10 @@ def execute(sc):
     loss = probdiffeq.loss_lml_timeseries(average_pdfs=sc["average"], tcoeff_index=k)
     val = float(loss(jnp.asarray(data), posterior=post, std=std_arg))
     Sy = Sig + onp.diag((std**2).reshape(-1))
-    ref = mp_logpdf(data.reshape(-1), mu, Sy)
+    mu_mp, Sig_mp = chain_joint_mp(post, [k * d + j for j in range(d)])
+    for i_, s_ in enumerate(std.reshape(-1)):
+        Sig_mp[i_, i_] += mp.mpf(float(s_)) ** 2
+    ref = mp_logpdf(data.reshape(-1), mu_mp, Sig_mp)
     if sc["average"]:
         ref = ref / N
     ref = float(ref)
@@ -121,7 +156,7 @@ def execute(sc):
         delta = compare.EPS * (onp.abs(As_s[i]) @ onp.abs(means_s[i + 1]) + onp.abs(bs_s[i]))[k * d:(k + 1) * d] / S[k * d:(k + 1) * d]
         amp += float(onp.sum((zv[i] + 1.0) * delta / sdv[i]))
     stats["mean_rounding_amplification"] = amp
-    tol_abs = tol * (1.0 + abs(ref)) + 1e4 * amp / (N if sc["average"] else 1)  # largest observed error / amp: 500
+    tol_abs = tol * (1.0 + abs(ref)) + 100 * amp / (N if sc["average"] else 1)  # largest observed error / amp with the 50-digit joint: 3.2
     tol = tol_abs / (1.0 + abs(ref))
     if not onp.isfinite(val):
         viol.append({"inv": "LML-finite", "msg": f"time-series loss is not finite ({val})"})
